@@ -6,3 +6,7 @@ import "verif/mc"
 var All = map[string]*mc.Check{}
 
 func Register(c *mc.Check) { All[c.ID] = c }
+
+// ExtraCommands are sub-commands of the check binary other than running a check
+// (for example the free-running body of C17, executed from a -race build).
+var ExtraCommands = map[string]func(args []string){}
